@@ -8,5 +8,6 @@ import AstGrepVerif.Model.Env
 import AstGrepVerif.Model.Match
 import AstGrepVerif.Model.Pattern
 import AstGrepVerif.Spec.Align
+import AstGrepVerif.Model.Rule
 import AstGrepVerif.Generated.Tables
 import AstGrepVerif.Props.C20
